@@ -1,26 +1,24 @@
 /-
-C03 — helper lemmas about the store: denotations (`flat`) under store extension and cell update.
-Core Lean only.
+C03 — helper lemmas about the store: denotations (`flat`) under store extension and cell update,
+chains that contain themselves, acyclic (ranked) stores.  Core Lean only.
 -/
 import MenpoModel.Core.C03Compose
 
 namespace MenpoModel.C03
 
-variable {d : Nat}
-
 /-- chain members point into a store of `n` cells -/
-def WFCell (n : Nat) : Cell d → Prop
+def WFCell (n : Nat) : Cell → Prop
   | .chain ms => ∀ m ∈ ms, m < n
   | _ => True
 
 /-- no dangling references -/
-def WF (st : Store d) : Prop := ∀ c ∈ st, WFCell st.length c
+def WF (st : Store) : Prop := ∀ c ∈ st, WFCell st.length c
 
-theorem WFCell.mono {n m : Nat} (h : n ≤ m) {c : Cell d} (hc : WFCell n c) : WFCell m c := by
+theorem WFCell.mono {n m : Nat} (h : n ≤ m) {c : Cell} (hc : WFCell n c) : WFCell m c := by
   cases c <;> simp only [WFCell] at *
   exact fun x hx => Nat.lt_of_lt_of_le (hc x hx) h
 
-theorem flatMembers_congr {g g' : Nat → Option (List (Leaf d))} {ms : List Nat}
+theorem flatMembers_congr {g g' : Nat → Option (List Leaf)} {ms : List Nat}
     (h : ∀ m ∈ ms, g m = g' m) : flatMembers g ms = flatMembers g' ms := by
   induction ms with
   | nil => rfl
@@ -28,8 +26,8 @@ theorem flatMembers_congr {g g' : Nat → Option (List (Leaf d))} {ms : List Nat
     simp only [flatMembers]
     rw [h m (by simp), ih (fun x hx => h x (by simp [hx]))]
 
-theorem flatMembers_mono {g g' : Nat → Option (List (Leaf d))} {ms : List Nat}
-    (h : ∀ m ∈ ms, ∀ l, g m = some l → g' m = some l) {l : List (Leaf d)}
+theorem flatMembers_mono {g g' : Nat → Option (List Leaf)} {ms : List Nat}
+    (h : ∀ m ∈ ms, ∀ l, g m = some l → g' m = some l) {l : List Leaf}
     (hl : flatMembers g ms = some l) : flatMembers g' ms = some l := by
   induction ms generalizing l with
   | nil => exact hl
@@ -44,8 +42,8 @@ theorem flatMembers_mono {g g' : Nat → Option (List (Leaf d))} {ms : List Nat}
         rw [h m (by simp) l1 hg, ih (fun x hx => h x (by simp [hx])) hf]
         simpa [hg, hf] using hl
 
-theorem flatMembers_append {g : Nat → Option (List (Leaf d))} {ms ns : List Nat}
-    {l1 l2 : List (Leaf d)} (h1 : flatMembers g ms = some l1) (h2 : flatMembers g ns = some l2) :
+theorem flatMembers_append {g : Nat → Option (List Leaf)} {ms ns : List Nat}
+    {l1 l2 : List Leaf} (h1 : flatMembers g ms = some l1) (h2 : flatMembers g ns = some l2) :
     flatMembers g (ms ++ ns) = some (l1 ++ l2) := by
   induction ms generalizing l1 with
   | nil => simp only [flatMembers] at h1; cases h1; simpa using h2
@@ -60,16 +58,16 @@ theorem flatMembers_append {g : Nat → Option (List (Leaf d))} {ms ns : List Na
         simp only [hg, hf, Option.some.injEq] at h1
         rw [ih hf]; simp [← h1]
 
-theorem flatMembers_single {g : Nat → Option (List (Leaf d))} {m : Nat} {l : List (Leaf d)}
+theorem flatMembers_single {g : Nat → Option (List Leaf)} {m : Nat} {l : List Leaf}
     (h : g m = some l) : flatMembers g [m] = some l := by
   simp [flatMembers, h]
 
-theorem flatMembers_pair {g : Nat → Option (List (Leaf d))} {m n : Nat} {l1 l2 : List (Leaf d)}
+theorem flatMembers_pair {g : Nat → Option (List Leaf)} {m n : Nat} {l1 l2 : List Leaf}
     (h1 : g m = some l1) (h2 : g n = some l2) : flatMembers g [m, n] = some (l1 ++ l2) := by
   simp [flatMembers, h1, h2]
 
 /-- more fuel never changes a denotation that was already found -/
-theorem flat_mono (st : Store d) : ∀ (f r : Nat) (l : List (Leaf d)),
+theorem flat_mono (st : Store) : ∀ (f r : Nat) (l : List Leaf),
     flat st f r = some l → flat st (f + 1) r = some l := by
   intro f
   induction f with
@@ -81,14 +79,14 @@ theorem flat_mono (st : Store d) : ∀ (f r : Nat) (l : List (Leaf d)),
     | none => simp [hc] at h
     | some c =>
       cases c with
-      | fam t => simpa [hc] using h
-      | leaf k => simpa [hc] using h
+      | fam d t => simpa [hc] using h
+      | leaf p => simpa [hc] using h
       | chain ms =>
         simp only [hc] at h ⊢
         exact flatMembers_mono (fun m _ l hl => ih m l hl) h
 
 /-- a store extended by one cell denotes the same at every old reference -/
-theorem flat_append (st : Store d) (c : Cell d) (hwf : WF st) : ∀ (f r : Nat), r < st.length →
+theorem flat_append (st : Store) (c : Cell) (hwf : WF st) : ∀ (f r : Nat), r < st.length →
     flat (st ++ [c]) f r = flat st f r := by
   intro f
   induction f with
@@ -100,19 +98,19 @@ theorem flat_append (st : Store d) (c : Cell d) (hwf : WF st) : ∀ (f r : Nat),
     | none => rfl
     | some cell =>
       cases cell with
-      | fam t => rfl
-      | leaf k => rfl
+      | fam d t => rfl
+      | leaf p => rfl
       | chain ms =>
         have hmem : Cell.chain ms ∈ st := List.mem_of_getElem? hc
         have := hwf _ hmem
         simp only [WFCell] at this
         exact flatMembers_congr (fun m hm => ih m (this m hm))
 
-theorem reaches_self (st : Store d) (f a : Nat) : reaches st (f + 1) a a = true := by
+theorem reaches_self (st : Store) (f a : Nat) : reaches st (f + 1) a a = true := by
   simp [reaches]
 
 /-- updating a cell that flattening never visits does not change the denotation -/
-theorem flat_set (st : Store d) (a : Nat) (c : Cell d) : ∀ (f r : Nat),
+theorem flat_set (st : Store) (a : Nat) (c : Cell) : ∀ (f r : Nat),
     reaches st f r a = false → flat (st.set a c) f r = flat st f r := by
   intro f
   induction f with
@@ -128,14 +126,14 @@ theorem flat_set (st : Store d) (a : Nat) (c : Cell d) : ∀ (f r : Nat),
     | none => rfl
     | some cell =>
       cases cell with
-      | fam t => rfl
-      | leaf k => rfl
+      | fam d t => rfl
+      | leaf p => rfl
       | chain ms =>
         simp only [hc, List.any_eq_false] at hrest
         exact flatMembers_congr (fun m hm => ih m (by simpa using hrest m hm))
 
-theorem applyLeaves_append (tbl : ClassTable) (env : Nat → Vec d → Option (Vec d))
-    (l1 l2 : List (Leaf d)) (x : Vec d) :
+theorem applyLeaves_append (tbl : ClassTable) (env : Nat → Pt → Option Pt)
+    (l1 l2 : List Leaf) (x : Pt) :
     applyLeaves tbl env (l1 ++ l2) x = (applyLeaves tbl env l1 x).bind (applyLeaves tbl env l2) := by
   induction l1 generalizing x with
   | nil => simp [applyLeaves]
@@ -145,9 +143,356 @@ theorem applyLeaves_append (tbl : ClassTable) (env : Nat → Vec d → Option (V
     | none => rfl
     | some y => simpa using ih y
 
-theorem applyLeaves_single (tbl : ClassTable) (env : Nat → Vec d → Option (Vec d))
-    (l : Leaf d) (x : Vec d) : applyLeaves tbl env [l] x = applyLeaf tbl env l x := by
+theorem applyLeaves_single (tbl : ClassTable) (env : Nat → Pt → Option Pt)
+    (l : Leaf) (x : Pt) : applyLeaves tbl env [l] x = applyLeaf tbl env l x := by
   simp only [applyLeaves]
   cases applyLeaf tbl env l x <;> rfl
+
+/-! ### chains that contain themselves -/
+
+theorem flatMembers_none_of_mem {g : Nat → Option (List Leaf)} {ms : List Nat} {m : Nat}
+    (hm : m ∈ ms) (h : g m = none) : flatMembers g ms = none := by
+  induction ms with
+  | nil => cases hm
+  | cons x xs ih =>
+    simp only [flatMembers]
+    rcases List.mem_cons.mp hm with rfl | hm'
+    · rw [h]
+    · rw [ih hm']; cases g x <;> rfl
+
+theorem flatMembers_total {g : Nat → Option (List Leaf)} {ms : List Nat}
+    (h : ∀ m ∈ ms, ∃ l, g m = some l) : ∃ l, flatMembers g ms = some l := by
+  induction ms with
+  | nil => exact ⟨[], rfl⟩
+  | cons x xs ih =>
+    obtain ⟨l1, h1⟩ := h x (by simp)
+    obtain ⟨l2, h2⟩ := ih (fun m hm => h m (by simp [hm]))
+    exact ⟨l1 ++ l2, by simp [flatMembers, h1, h2]⟩
+
+/-- the cell `a` itself is never looked into when asking whether something reaches `a` -/
+theorem reaches_set (st : Store) (a : Nat) (c : Cell) : ∀ (f r : Nat),
+    reaches (st.set a c) f r a = reaches st f r a := by
+  intro f
+  induction f with
+  | zero => intro r; rfl
+  | succ f ih =>
+    intro r
+    simp only [reaches]
+    by_cases h : r = a
+    · subst h; simp
+    · rw [List.getElem?_set_ne (Ne.symm h)]
+      have : (fun m => reaches (st.set a c) f m a) = fun m => reaches st f m a := funext (ih ·)
+      rw [this]
+
+theorem reaches_self' (st : Store) (f a : Nat) : reaches st (f + 1) a a = true := by
+  simp [reaches]
+
+/-- one hop: a chain reaches whatever one of its members reaches -/
+theorem reaches_step {st : Store} {i a m f : Nat} {ms : List Nat} (hi : st[i]? = some (.chain ms))
+    (hm : m ∈ ms) (h : reaches st f m a = true) : reaches st (f + 1) i a = true := by
+  simp only [reaches, hi, Bool.or_eq_true, List.any_eq_true]
+  exact Or.inr ⟨m, hm, h⟩
+
+/-- what `reaches … = true` means one level down -/
+theorem reaches_cases {st : Store} {r a f : Nat} (h : reaches st (f + 1) r a = true) :
+    r = a ∨ ∃ ms m, st[r]? = some (.chain ms) ∧ m ∈ ms ∧ reaches st f m a = true := by
+  simp only [reaches, Bool.or_eq_true, beq_iff_eq] at h
+  rcases h with h | h
+  · exact Or.inl h
+  · cases hc : st[r]? with
+    | none => simp [hc] at h
+    | some cell =>
+      cases cell with
+      | fam d t => simp [hc] at h
+      | leaf p => simp [hc] at h
+      | chain ms =>
+        simp only [hc, List.any_eq_true] at h
+        obtain ⟨m, hm, hr⟩ := h
+        exact Or.inr ⟨ms, m, rfl, hm, hr⟩
+
+/-- If the chain `a` has a member from which `a` itself is reached, then neither `a` nor anything
+that reaches `a` has a denotation, whatever the fuel: `TransformChain._apply` recurses forever. -/
+theorem flat_none_of_cycle (st : Store) (a : Nat) (ms : List Nat) (ha : st[a]? = some (.chain ms))
+    (hcyc : ∃ m ∈ ms, ∃ f, reaches st f m a = true) :
+    ∀ (g r : Nat), (∃ f, reaches st f r a = true) → flat st g r = none := by
+  intro g
+  induction g with
+  | zero => intro r _; rfl
+  | succ g ih =>
+    intro r ⟨f, hf⟩
+    cases f with
+    | zero => simp [reaches] at hf
+    | succ f =>
+      rcases reaches_cases hf with rfl | ⟨ms', m, hr, hm, hreach⟩
+      · obtain ⟨m, hm, f', hf'⟩ := hcyc
+        rw [flat, ha]
+        exact flatMembers_none_of_mem hm (ih m ⟨f', hf'⟩)
+      · rw [flat, hr]
+        exact flatMembers_none_of_mem hm (ih m ⟨f, hreach⟩)
+
+/-! ### acyclic stores: a rank that strictly decreases from a chain to its members -/
+
+def RankedBy (st : Store) (rk : Nat → Nat) : Prop :=
+  ∀ a ms, st[a]? = some (.chain ms) → ∀ m ∈ ms, rk m < rk a
+
+/-- no chain contains itself, directly or through other chains -/
+def Ranked (st : Store) : Prop := ∃ rk, RankedBy st rk
+
+theorem ranked_reaches {st : Store} {rk : Nat → Nat} (h : RankedBy st rk) :
+    ∀ (f r a : Nat), reaches st f r a = true → r = a ∨ rk a < rk r := by
+  intro f
+  induction f with
+  | zero => intro r a hr; simp [reaches] at hr
+  | succ f ih =>
+    intro r a hr
+    rcases reaches_cases hr with e | ⟨ms, m, hc, hm, hreach⟩
+    · exact Or.inl e
+    · right
+      have := h r ms hc m hm
+      rcases ih m a hreach with e | hlt
+      · rw [← e]; exact this
+      · exact Nat.lt_trans hlt this
+
+/-- in an acyclic store a member of a chain never leads back to the chain -/
+theorem ranked_member_not_reaches {st : Store} (hr : Ranked st) {a : Nat} {ms : List Nat}
+    (ha : st[a]? = some (.chain ms)) {m : Nat} (hm : m ∈ ms) (f : Nat) : reaches st f m a = false := by
+  obtain ⟨rk, hrk⟩ := hr
+  cases h : reaches st f m a with
+  | false => rfl
+  | true =>
+    have hlt := hrk a ms ha m hm
+    rcases ranked_reaches hrk f m a h with e | h2
+    · rw [e] at hlt; exact absurd hlt (Nat.lt_irrefl _)
+    · exact absurd (Nat.lt_trans hlt h2) (Nat.lt_irrefl _)
+
+/-- a store in which a chain is reached from one of its own members is not acyclic -/
+theorem not_ranked_of_cycle {st : Store} {a m f : Nat} {ms : List Nat}
+    (ha : st[a]? = some (.chain ms)) (hm : m ∈ ms) (h : reaches st f m a = true) : ¬ Ranked st := by
+  intro hr
+  have := ranked_member_not_reaches hr ha hm f
+  rw [h] at this; cases this
+
+theorem flat_mono_le (st : Store) {f g : Nat} (hfg : f ≤ g) {r : Nat} {l : List Leaf}
+    (h : flat st f r = some l) : flat st g r = some l := by
+  induction hfg with
+  | refl => exact h
+  | step _ ih => exact flat_mono st _ r l ih
+
+/-- every object of an acyclic store without dangling references has a denotation; the rank of
+the object bounds the fuel that is needed -/
+theorem ranked_flat_total {st : Store} (hwf : WF st) {rk : Nat → Nat} (hrk : RankedBy st rk) :
+    ∀ (n r : Nat), rk r ≤ n → r < st.length → ∃ l, flat st (n + 1) r = some l := by
+  intro n
+  induction n with
+  | zero =>
+    intro r hr hlt
+    rw [flat]
+    have hget : st[r]? = some st[r] := by simp [hlt]
+    rw [hget]
+    cases hc : st[r] with
+    | fam d t => exact ⟨_, rfl⟩
+    | leaf p => exact ⟨_, rfl⟩
+    | chain ms =>
+      rw [hc] at hget
+      cases ms with
+      | nil => exact ⟨[], rfl⟩
+      | cons m ms' =>
+        have := hrk r _ hget m (by simp)
+        omega
+  | succ n ih =>
+    intro r hr hlt
+    rw [flat]
+    have hget : st[r]? = some st[r] := by simp [hlt]
+    rw [hget]
+    cases hc : st[r] with
+    | fam d t => exact ⟨_, rfl⟩
+    | leaf p => exact ⟨_, rfl⟩
+    | chain ms =>
+      rw [hc] at hget
+      apply flatMembers_total
+      intro m hm
+      have h1 := hrk r _ hget m hm
+      have h2 : m < st.length := by
+        have := hwf _ (List.mem_of_getElem? hget); exact this m hm
+      exact ih m (by omega) h2
+
+theorem le_sum_of_mem {l : List Nat} {x : Nat} (h : x ∈ l) : x ≤ l.sum := by
+  induction l with
+  | nil => cases h
+  | cons y ys ih =>
+    simp only [List.sum_cons]
+    rcases List.mem_cons.mp h with rfl | h'
+    · omega
+    · have := ih h'; omega
+
+/-- a new object at the end of the store refers to older objects only: still acyclic -/
+theorem ranked_append {st : Store} (hwf : WF st) (hr : Ranked st) {c : Cell}
+    (hc : WFCell st.length c) : Ranked (st ++ [c]) := by
+  obtain ⟨rk, hrk⟩ := hr
+  let bound : Nat := match c with
+    | .chain ms => (ms.map rk).sum + 1
+    | _ => 0
+  refine ⟨fun x => if x = st.length then bound else rk x, ?_⟩
+  intro a ms ha m hm
+  by_cases hlt : a < st.length
+  · rw [List.getElem?_append_left hlt] at ha
+    have hmlt : m < st.length := by
+      have := hwf _ (List.mem_of_getElem? ha); exact this m hm
+    simp only [Nat.ne_of_lt hlt, Nat.ne_of_lt hmlt, if_false]
+    exact hrk a ms ha m hm
+  · have hlen : a < (st ++ [c]).length := by
+      rcases Nat.lt_or_ge a (st ++ [c]).length with h | h
+      · exact h
+      · rw [List.getElem?_eq_none h] at ha; cases ha
+    have hae : a = st.length := by simp at hlen; omega
+    subst hae
+    simp at ha
+    subst ha
+    have hmlt : m < st.length := hc m hm
+    simp only [Nat.ne_of_lt hmlt, if_false, if_true, bound]
+    have := le_sum_of_mem (List.mem_map.mpr ⟨m, hm, rfl⟩ : rk m ∈ ms.map rk)
+    omega
+
+/-- replacing a cell by one that is not a chain keeps the store acyclic -/
+theorem ranked_set_nonchain {st : Store} (hr : Ranked st) (a : Nat) {c : Cell}
+    (hc : ∀ ms, c ≠ .chain ms) : Ranked (st.set a c) := by
+  obtain ⟨rk, hrk⟩ := hr
+  refine ⟨rk, ?_⟩
+  intro i ms hi m hm
+  by_cases h : a = i
+  · subst h
+    by_cases hlt : a < st.length
+    · rw [List.getElem?_set_self hlt] at hi
+      exact absurd (Option.some.inj hi) (hc ms)
+    · rw [List.getElem?_eq_none (by simp; omega)] at hi; cases hi
+  · rw [List.getElem?_set_ne h] at hi
+    exact hrk i ms hi m hm
+
+/-- appending / prepending `b` to the chain `a` keeps the store acyclic provided `b` does not
+contain `a` -/
+theorem ranked_chain_add {st : Store} (hr : Ranked st) {a b : Nat} {ms : List Nat} (dir : Dir)
+    (ha : st[a]? = some (.chain ms)) (hnb : ∀ f, reaches st f b a = false) :
+    Ranked (st.set a (.chain (chainAdd dir ms b))) := by
+  obtain ⟨rk, hrk⟩ := hr
+  haveI : DecidablePred fun x => ∃ f, reaches st f x a = true := fun _ => Classical.propDecidable _
+  refine ⟨fun x => if ∃ f, reaches st f x a = true then rk x + rk b + 1 else rk x, ?_⟩
+  have halt : a < st.length := by
+    rcases Nat.lt_or_ge a st.length with h | h
+    · exact h
+    · rw [List.getElem?_eq_none h] at ha; cases ha
+  have hRa : ∃ f, reaches st f a a = true := ⟨1, reaches_self' st 0 a⟩
+  have hRb : ¬ ∃ f, reaches st f b a = true := by
+    intro ⟨f, hf⟩; rw [hnb f] at hf; cases hf
+  intro i ms' hi m hm
+  by_cases h : a = i
+  · subst h
+    rw [List.getElem?_set_self halt] at hi
+    have hms' : ms' = chainAdd dir ms b := by cases hi; rfl
+    subst hms'
+    have hm' : m ∈ ms ∨ m = b := by
+      cases dir <;> simp only [chainAdd, List.mem_append, List.mem_cons, List.not_mem_nil, or_false] at hm
+      · exact hm
+      · exact hm.symm
+    simp only [hRa, if_true]
+    rcases hm' with hm' | rfl
+    · have := hrk a ms ha m hm'
+      split <;> omega
+    · simp only [hRb, if_false]; omega
+  · rw [List.getElem?_set_ne h] at hi
+    have hlt := hrk i ms' hi m hm
+    by_cases hRm : ∃ f, reaches st f m a = true
+    · obtain ⟨f, hf⟩ := hRm
+      have hRi : ∃ f, reaches st f i a = true := ⟨f + 1, reaches_step hi hm hf⟩
+      simp only [hRi, (⟨f, hf⟩ : ∃ f, reaches st f m a = true), if_true]; omega
+    · simp only [hRm, if_false]
+      split <;> omega
+
+/-! ### dimension typing -/
+
+theorem pick_length {ds : List Nat} {x y : Pt} (h : pick ds x = some y) : y.length = ds.length := by
+  induction ds generalizing y with
+  | nil => simp only [pick, Option.some.injEq] at h; subst h; rfl
+  | cons i is ih =>
+    simp only [pick] at h
+    cases hx : x[i]? with
+    | none => simp [hx] at h
+    | some v =>
+      cases hp : pick is x with
+      | none => simp [hx, hp] at h
+      | some vs =>
+        simp only [hx, hp, Option.some.injEq] at h
+        rw [← h, List.length_cons, ih hp, List.length_cons]
+
+theorem pick_some_iff {ds : List Nat} {x : Pt} : (∃ y, pick ds x = some y) ↔ ds.all (· < x.length) = true := by
+  induction ds with
+  | nil => simp [pick]
+  | cons i is ih =>
+    simp only [pick, List.all_cons, Bool.and_eq_true, decide_eq_true_eq]
+    constructor
+    · intro ⟨y, hy⟩
+      cases hx : x[i]? with
+      | none => simp [hx] at hy
+      | some v =>
+        cases hp : pick is x with
+        | none => simp [hx, hp] at hy
+        | some vs =>
+          refine ⟨?_, ih.mp ⟨vs, hp⟩⟩
+          rcases Nat.lt_or_ge i x.length with h | h
+          · exact h
+          · rw [List.getElem?_eq_none h] at hx; cases hx
+    · intro ⟨hi, hrest⟩
+      obtain ⟨vs, hvs⟩ := ih.mpr hrest
+      exact ⟨x[i] :: vs, by simp [hi, hvs]⟩
+
+theorem maskPick_length : ∀ (bs : List Bool) (x : Pt), bs.length = x.length →
+    (maskPick bs x).length = bs.count true
+  | [], [], _ => rfl
+  | [], _ :: _, h => by simp at h
+  | _ :: _, [], h => by simp at h
+  | b :: bs, v :: vs, h => by
+    have ih := maskPick_length bs vs (by simpa using h)
+    cases b <;> simp [maskPick, ih]
+
+/-- the positions at which a mask is true, counted from `k` -/
+def maskIdx : List Bool → Nat → List Nat
+  | [], _ => []
+  | b :: bs, k => if b then k :: maskIdx bs (k + 1) else maskIdx bs (k + 1)
+
+theorem pick_maskIdx : ∀ (bs : List Bool) (pre x : Pt), bs.length = x.length →
+    pick (maskIdx bs pre.length) (pre ++ x) = some (maskPick bs x)
+  | [], pre, [], _ => rfl
+  | [], _, _ :: _, h => by simp at h
+  | _ :: _, _, [], h => by simp at h
+  | b :: bs, pre, v :: vs, h => by
+    have ih := pick_maskIdx bs (pre ++ [v]) vs (by simpa using h)
+    simp only [List.length_append, List.length_cons, List.length_nil, List.append_assoc,
+      List.cons_append, List.nil_append] at ih
+    cases b
+    · simpa [maskIdx, maskPick] using ih
+    · simp only [maskIdx, maskPick, if_true, pick, ih]
+      simp
+
+/-- PROPERTY-level fact about `WithDims`: a Boolean mask slices exactly like the index list of its
+true positions (the two spellings the class documents) -/
+theorem withMask_eq_withDims (bs : List Bool) (x : Pt) (h : bs.length = x.length) :
+    pick (maskIdx bs 0) x = some (maskPick bs x) := by
+  simpa using pick_maskIdx bs [] x h
+
+theorem leavesDim_append (envDim : Nat → Nat → Option Nat) (l1 l2 : List Leaf) (n : Nat) :
+    leavesDim envDim (l1 ++ l2) n = (leavesDim envDim l1 n).bind (leavesDim envDim l2) := by
+  induction l1 generalizing n with
+  | nil => simp [leavesDim]
+  | cons l ls ih =>
+    simp only [List.cons_append, leavesDim]
+    cases leafDim envDim l n with
+    | none => rfl
+    | some k => simpa using ih k
+
+theorem Vec.toList_length {d : Nat} (y : Vec d) : y.toList.length = d := by
+  simp [Vec.toList]
+
+theorem Vec.ofList_toList {d : Nat} (y : Vec d) : Vec.ofList d y.toList = y := by
+  apply Vec.ext; intro i
+  simp [Vec.ofList, Vec.toList]
 
 end MenpoModel.C03
